@@ -43,8 +43,8 @@ impl Engine for C20 {
     }
     fn runs(&self, tier: Tier) -> u64 {
         match tier {
-            Tier::Quick => 4_000,
-            Tier::Thorough => 150_000,
+            Tier::Quick => 24_000,
+            Tier::Thorough => 240_000,
         }
     }
     fn gen(&self, seed: u64, _index: u64, _tier: Tier) -> C20Plan {
